@@ -105,7 +105,7 @@ def fmt_v6(packed, form):
     return str(ipaddress.IPv6Address(bytes(packed)))      # compressed canonical form
 
 
-PACKED_V4 = {(None, 8)}      # (vendor, code) of classes carrying a bare packed IPv4 address (RFC 7155 Framed-IP-Address)
+PACKED_V4 = dictx.PACKED_V4
 
 
 def addr_format(d):
